@@ -72,6 +72,11 @@ def decArg (t : String) : Option Arg :=
 inductive DOp
   | cmd (c : CollCmd) (a : List Arg)
   | foreign (tag : Nat)
+  /-- `__foreignlist:<key>`: the embedder stores the array `[apple, pear, plum]` in the handle table
+      under a key OF ITS OWN (no `handle:` prefix): every command must treat it like any array -/
+  | foreignList (key : Str)
+
+def foreignListValue : Value := .list [.str "apple".toList, .str "pear".toList, .str "plum".toList]
 
 def decOp (t : String) : Option DOp :=
   match t.splitOn ":" with
@@ -79,6 +84,9 @@ def decOp (t : String) : Option DOp :=
     let s ← decStr a
     let n ← (String.ofList s).toNat?
     pure (.foreign n)
+  | ["__foreignlist", a] => do
+    let s ← decStr a
+    pure (.foreignList s)
   | [c, a] => do
     let cmd ← cmdOfName c
     let args ← if a.isEmpty then some [] else (a.splitOn ",").mapM decArg
@@ -102,6 +110,8 @@ def runOps (s : St) (outs : Array Res) : List DOp → St × Array Res
   | .foreign tag :: rest =>
     let (s', h) := putHandle s (.other tag)
     runOps s' (outs.push (.val (some h))) rest
+  | .foreignList key :: rest =>
+    runOps { s with tbl := tinsert s.tbl key foreignListValue } (outs.push (.val (some key))) rest
 
 def encRes : Res → String
   | .val none => "-"
